@@ -22,6 +22,18 @@ version_parse(const char *version, int tuple[3])
 		return -1;
 	}
 
+	/* strtok_r() skips empty components, so "1..2.3", ".1.2.3" or
+	 * "1.2.-3" would be taken as valid: refuse them here */
+	for (const char *p = version; *p != '\0' && *p != '-'; p++) {
+		if (*p != '.')
+			continue;
+
+		if (p == version || p[1] == '.' || p[1] == '-' || p[1] == '\0') {
+			err("empty component in version: %s", version);
+			return -1;
+		}
+	}
+
 	strcpy(buf, version);
 
 	char *str = buf;
